@@ -61,6 +61,45 @@ func checkC03ExprR(c c03Expr, reached *bool) *evid.Fail {
 				return
 			}
 		}
+		// variables whose values were cleared (explicit collection and defaults)
+		vc := makeVars(c.Vars)
+		vc.ClearValues()
+		v, err := calc.EvaluateUsingVariables(vc)
+		if res = exactlyOne("EvaluateUsingVariables after ClearValues", v, err); res != nil {
+			res.Msg = fmt.Sprintf("%q: %s", c.Text, res.Msg)
+			return
+		}
+		calc.DefaultVariables().ClearValues()
+		v, err = calc.Evaluate()
+		if res = exactlyOne("Evaluate after ClearValues", v, err); res != nil {
+			res.Msg = fmt.Sprintf("%q: %s", c.Text, res.Msg)
+			return
+		}
+		// automatic variables switched off before the first expression, no collection passed
+		strict := calculator.NewExpressionCalculator()
+		strict.SetAutoVariables(false)
+		if strict.SetExpression(c.Text) == nil {
+			v, err = strict.Evaluate()
+			if res = exactlyOne("Evaluate with automatic variables off", v, err); res != nil {
+				res.Msg = fmt.Sprintf("%q: %s", c.Text, res.Msg)
+				return
+			}
+			v, err = strict.EvaluateUsingVariablesAndFunctions(nil, nil)
+			if res = exactlyOne("EvaluateUsingVariablesAndFunctions(nil, nil) with automatic variables off", v, err); res != nil {
+				res.Msg = fmt.Sprintf("%q: %s", c.Text, res.Msg)
+				return
+			}
+			strict.Clear()
+			strict.Evaluate()
+		}
+		// the constructor entry points
+		if c2, err := calculator.ExpressionCalculatorFromExpression(c.Text); err == nil && c2 != nil {
+			v, err = c2.Evaluate()
+			if res = exactlyOne("FromExpression + Evaluate", v, err); res != nil {
+				res.Msg = fmt.Sprintf("%q: %s", c.Text, res.Msg)
+				return
+			}
+		}
 	}); g != nil {
 		g.Msg = fmt.Sprintf("expression %q with %v: %s", c.Text, c.Vars, g.Msg)
 		return g
@@ -92,6 +131,16 @@ func checkC03TmplR(c c03Tmpl, reached *bool) *evid.Fail {
 		t2, err := mustache.NewMustacheTemplateFromString(c.Text)
 		if err == nil && t2 != nil {
 			t2.EvaluateWithVariables(map[string]string{})
+		}
+		t3 := mustache.NewMustacheTemplate()
+		t3.SetAutoVariables(false)
+		if t3.SetTemplate(c.Text) == nil {
+			t3.Evaluate()
+			t3.SetDefaultVariables(nil)
+			t3.Evaluate()
+			t3.EvaluateWithVariables(nil)
+			t3.Clear()
+			t3.Evaluate()
 		}
 	}); g != nil {
 		g.Msg = fmt.Sprintf("template %q with %s: %s", c.Text, sortedMap(c.Map), g.Msg)
@@ -195,10 +244,10 @@ const c03Rule = "arbitrary input strings x hostile variable assignments through 
 
 // hostile assignments: 0 divisors, negative / huge shift counts and indexes, Null everywhere, NaN, empties, non-ASCII
 var c03Assignments = [][]binding{
-	{{"a", vInt(0)}, {"b", vInt(-1)}, {"c", vString("")}, {"d", vArray()}, {"e", vNull()}},
-	{{"a", vInt(1)}, {"b", vInt(64)}, {"c", vString("é中😀")}, {"d", vArray(vInt(1), vNull(), vString("a"))}, {"e", vDouble(parseFloat("NaN"))}},
-	{{"a", vLong(-9223372036854775808)}, {"b", vInt(1 << 40)}, {"c", vString("abc")}, {"d", vArray(vArray(vInt(1)))}, {"e", vBool(false)}},
-	{{"a", vNull()}, {"b", vNull()}, {"c", vNull()}, {"d", vNull()}, {"e", vNull()}},
+	{{"a", vInt(0)}, {"bb", vInt(-1)}, {"tot", vString("")}, {"d_1", vArray()}, {"eve", vNull()}},
+	{{"a", vInt(1)}, {"bb", vInt(64)}, {"tot", vString("é中😀")}, {"d_1", vArray(vInt(1), vNull(), vString("a"))}, {"eve", vDouble(parseFloat("NaN"))}},
+	{{"a", vLong(-9223372036854775808)}, {"bb", vInt(1 << 40)}, {"tot", vString("abc")}, {"d_1", vArray(vArray(vInt(1)))}, {"eve", vBool(false)}},
+	{{"a", vNull()}, {"bb", vNull()}, {"tot", vNull()}, {"d_1", vNull()}, {"eve", vNull()}},
 }
 
 func quoteNonASCII(s string) bool {
@@ -270,7 +319,7 @@ func TestC03_ExhaustiveTokenizers(t *testing.T) {
 	rec.Bounds = fmt.Sprintf("all strings of length 0..%d over the 23-symbol class alphabet x 4 tokenizers x 5 option sets (as constructed, none, all, decode only, all skips)", maxLen)
 	enumStrings(c04Alphabet, maxLen, true, func(parts []string) {
 		s := runesOf(parts)
-		for _, k := range tokKinds {
+		for _, k := range tokKindsExt {
 			for _, o := range optSets {
 				c := c03Tok{k, o, s}
 				rec.Case(fmt.Sprintf("%s|%d|%s", k, o, s), quoteNonASCII(s) || len(parts) >= 2, func() interface{} { return c }, "tok:"+k)
@@ -369,7 +418,7 @@ func TestC03_RapidTokenizersAndDecoders(t *testing.T) {
 	rec := evid.New("C03", "TestC03_RapidTokenizersAndDecoders", "C03.tokenize", c03Rule)
 	defer finish(t, rec)
 	runRapid(t, pick(30000, 250000), 333, func(rt *rapid.T) {
-		kind := rapid.SampledFrom(tokKinds).Draw(rt, "tok")
+		kind := rapid.SampledFrom(tokKindsExt).Draw(rt, "tok")
 		in := genTokInput(rt, c04Alphabet, 48)
 		if rapid.Bool().Draw(rt, "frag") {
 			in = genOptInput(rt, kind)
@@ -460,7 +509,7 @@ func FuzzC03_Tokenize(f *testing.F) {
 		if len(s) > 1<<16 {
 			t.Skip()
 		}
-		c := c03Tok{tokKinds[int(k)%4], int(o) % (optAll + 1), string([]rune(s))}
+		c := c03Tok{tokKindsExt[int(k)%len(tokKindsExt)], int(o) % (optAll + 1), string([]rune(s))}
 		fuzzReport(t, "C03", checkC03Tok(c), c)
 	})
 }
